@@ -218,6 +218,10 @@ func checkC05(ctx *Ctx, r *Report, tier string) {
 		isoZero(r, ev, "marchingCubes")
 	}
 	r.floor("T7", 3)
+	if ufn != nil {
+		everyCellFeedsKernel(ctx, r, "T9", ufn, "mcToTriangles")
+		r.floor("T9", 1)
+	}
 
 	// T8 / pairing
 	r.check("T8", "mcToTriangles|edge-vertex-from-its-own-corners", kf.pos, kf.pairOK && kf.interpA == 0 && kf.interpB == 1 || kf.pairOK && kf.interpA == 1 && kf.interpB == 0, kf.pairDetail)
